@@ -173,10 +173,11 @@ def audit(prop):
     audit_file = os.path.join(LEAN, "SamVerif", "Audit", f"{prop}.lean")
     names = re.findall(r"^#print axioms\s+(\S+)", open(audit_file).read(), re.M)
     res["obligations"] = names
-    ok, log = build_lean([f"SamVerif.Props.{prop}"])
+    mods = re.findall(r"^import\s+(SamVerif\.\S+)", open(audit_file).read(), re.M) or [f"SamVerif.Props.{prop}"]
+    ok, log = build_lean(mods)
     res["log"] = log
     if not ok:
-        res["failed"] = [(n, "lake build of SamVerif.Props.%s failed" % prop) for n in names]
+        res["failed"] = [(n, "lake build of %s failed" % " ".join(mods)) for n in names]
         return res
     rc, out = lean_run(os.path.join("SamVerif", "Audit", f"{prop}.lean"))
     res["log"] += out
